@@ -66,6 +66,18 @@ M = [
  ('VM `ao.get_type("missing")` dereferenced nil;', 'C18', 'VM `ao.get_type("missing")` dereferenced nil; now an IndexOutOfBounds error like indexing a missing field'),
  ('VM `[0..2].to_json()` panicked the host (`Mar', 'C18', 'VM `[0..2].to_json()` panicked the host (`MarshalValue` has no error path); the panic is turned into a JsonError as on the interpreter'),
  ('import identifier loop stops on a lexer error', 'C05', '`import trigger minute from tri\u00e9ggers;` (an illegal character inside the module name): Parser.importIdent looped forever appending to a slice until "fatal error: out of memory" killed the host'),
+ ('`case \' \', \'\\n\', \'\\t\' | \'\\r\'` ORs the two run', 'C06', '`case \' \', \'\\n\', \'\\t\' | \'\\r\'` ORs the two runes (9|13 = 13), so TAB is reported as an illegal character; list them separately (C06 TOKENS:valid-text-rejected char:tab; C07 every layout variant with a tab; precondition of the importIdent hang)'),
+ ('makeOr/makeAnd advance before looking at the ', 'C06', 'makeOr/makeAnd advance before looking at the second rune and once more after building the token, so `| || |= & && &=` end one column late and swallow the following rune (`1|2` lexes as `1 |`, `a||b` loses `b`); peek at nextChar like every other two-rune operator (C06 SPAN:end / TOKENS:token-lost after:op:| ..., C07 LAYOUT:separator sep:none left:op:|)'),
+ ('makeBitXor builds the span after advancing pa', 'C06', 'makeBitXor builds the span after advancing past the operator and without the file name, so `^` and `^=` end one column late and carry an empty Filename; build the token on the last rune like the other operators (C06 SPAN:end / SPAN:filename op:^ op:^=)'),
+ ('makeTildeArrow takes the end of the span afte', 'C06', 'makeTildeArrow takes the end of the span after advancing past `>`, so `~>` ends one column late; remember the location of `>` first (C06 SPAN:end op:~>)'),
+ ('makeNumber only skips underscores directly be', 'C06', 'makeNumber only skips underscores directly behind the first digit and never counts `_` or the `f` suffix into the span, so `10_000` lexes as `10` + identifier `_000`, `1.5_0` as `1.5` + `_0`, and `1_`, `1f`, `1_f` end too early; accept DIGIT|\'_\' in both digit runs as grammar.ebnf says (the value is stripped of `_` already) and include the suffix in the span (C06 TOKENS:value / TOKENS:kind / SPAN:end num:*)'),
+ ('skipLineComment advances once more at end of ', 'C06', 'skipLineComment advances once more at end of input, so EOF after a trailing `// comment` lies one index/column behind the text; skipBlockComment stops one rune early on an unclosed comment, so the last rune of `/* x` is lexed as a token; only advance while there is a rune and consume an unclosed comment to the end (C06 SPAN:start/end tok:EOF gap:line-comment, TOKENS:token-inside-unclosed-block-comment)'),
+ ('TokenKind.String has no case for BitAnd and p', 'C06', 'TokenKind.String has no case for BitAnd and panics; every \'Expected .., found ..\' message for a misplaced `&` is built through it (fmt turns the panic into `%!s(PANIC=String method: ...)`, direct callers die) (C06 HOST-PANIC:lexer.TokenKind.String kind:&)'),
+ ('`(a) = b`, `(a.m) += 1`, `((a[0])) = 1` are r', 'C07', '`(a) = b`, `(a.m) += 1`, `((a[0])) = 1` are rejected with \'Invalid left-hand side of assignment\' because the target check looks at the GroupedExpression node; unwrap redundant parentheses before the check (the assignment node then carries the inner target, exactly as for `a = b`) (C07 LAYOUT:parentheses:rejected around:assignment-target)'),
+ ('in `impl T with { a, b, } for $S` the trailin', 'C07', 'in `impl T with { a, b, } for $S` the trailing comma branch consumes the `}` itself and then expects another one (`Expected \'}\', found \'for\'`), although grammar.ebnf allows the trailing comma; leave the `}` to the common expectRecoverable (C07 LAYOUT:trailing-comma:rejected list:impl-capabilities)'),
+ ('matchExpression analyses the action of a `_` ', 'C05', 'matchExpression analyses the action of a `_` arm twice (once for every arm, once more for the default arm), so every diagnostic inside it is reported twice and nested matches take 2^depth steps (`match 1 { _ => match 1 { _ => ... } }` at depth 100 does not return); reuse the action analysed at the top of the loop (C05 FATAL:no-return:analyzer.(*Analyzer).matchExpression nest:match-nested)'),
+ ('TypeCheck panics with \'TODO: implement or rem', 'C05', 'TypeCheck panics with \'TODO: implement or remove this\' as soon as two function types with variadic parameters meet (`print == println`, `print - print`, `let f: ... = print` against another builtin); compare the leading parameter types and the type of the remaining arguments instead (C05 HOST-PANIC:analyzer.(*Analyzer).TypeCheck:TODO: implement or remove this)'),
+ ('`import trigger t from m;` where module m has', 'C05', '`import trigger t from m;` where module m has no trigger `t` reports the error but still registers the zero-value TriggerFunction under that name; the next use panics the host (`#[trigger in t(..)]`: \'trigger return type is <nil>\', `trigger f on t(..);`: \'Param type cannot be <nil>\'); do not register what was not found, later uses then get the ordinary \'undefined trigger\' diagnostic (C05 HOST-PANIC:analyzer.(*A'),
 ]
 log = subprocess.check_output(['git', '-C', '/repo', 'log', '--reverse', '--format=%h %s']).decode().splitlines()
 fixed, unmatched = [], []
